@@ -146,7 +146,7 @@ func (w *webWriter) flushWithTrailer() {
 		for key, val := range hdr {
 			if name := strings.TrimPrefix(key, http.TrailerPrefix); name != key {
 				delete(hdr, key)
-				hdr[name] = val
+				hdr[name] = append(hdr[name], val...)
 			}
 		}
 	}
